@@ -80,6 +80,20 @@ Theorem C01_omap_invariant :
 Proof. intros c π ops Hc H. exact (omap_history_inv c π ops Hc H (mk_omap [] []) [] om_inv_empty). Qed.
 Print Assumptions C01_omap_invariant.
 
+(** process-local transaction-scoped state (the published StateDB pointer): when every publishing handler is guarded by its
+    clearing defer, the results of a message history do not depend on where a node was restarted … *)
+Theorem C01_tx_scoped_state_restart_independent :
+  forall h, forallb (fun x => h_guarded (snd x)) h = true ->
+    run_handlers false h = run_handlers false (no_restarts h).
+Proof. exact restart_independent. Qed.
+Print Assumptions C01_tx_scoped_state_restart_independent.
+
+(** … and one unguarded publisher with an early error return makes a restarted node answer differently *)
+Theorem C01_unguarded_publisher_refuted :
+  exists h, run_handlers false h <> run_handlers false (no_restarts h).
+Proof. exact unguarded_publisher_refuted. Qed.
+Print Assumptions C01_unguarded_publisher_refuted.
+
 (** the boolean checker evaluated on implementation traces is sound for [P] *)
 Theorem C01_checker_sound : forall o, Pb o = true -> P o.
 Proof. exact Pb_sound. Qed.
